@@ -10,6 +10,7 @@ import (
 	clock "lunar/toolkit-core/clock"
 	context_manager "lunar/toolkit-core/context-manager"
 	"lunar/toolkit-core/otel"
+	"lunar/toolkit-core/verifhook"
 	"time"
 
 	lunar_metrics "lunar/engine/metrics"
@@ -393,7 +394,13 @@ func (p *queueProcessor) enqueueIfSlotAvailable(req *Request) bool {
 		return false
 	}
 
+	if verifhook.Enabled {
+		verifhook.Yield("queue.slot-checked", req.GetID())
+	}
 	p.requestsWatcher.AddRequest(req)
+	if verifhook.Enabled {
+		verifhook.Emit("queue.registered", req.GetID())
+	}
 
 	p.logger.Trace().Str("requestID", req.GetID()).Msg("Slot available, enqueuing")
 	if err := p.queue.Enqueue(req.GetID(), req.GetPriority()); err != nil {
@@ -517,6 +524,9 @@ func (p *queueProcessor) validateProcessingTimeoutIsGreaterTheTTL() error {
 }
 
 func (p *queueProcessor) removeRequest(reqID string) {
+	if verifhook.Enabled {
+		verifhook.Yield("queue.before-remove", reqID)
+	}
 	p.requestsWatcher.RemoveFromWatchList(reqID)
 	p.queue.Remove(reqID)
 }
